@@ -3,6 +3,7 @@ package main
 import (
 	"fmt"
 	"go/types"
+	"strings"
 
 	"golang.org/x/tools/go/ssa"
 )
@@ -278,21 +279,48 @@ func r062(c *Ctx) {
 		}
 	}
 	c.ob(rule, "DeployService/option-errors-precede-deploy", ds.Pos(), okDS, true, "certificate/error-page/wildcard errors (from NewService/CopyWithOptions) must return before targets are created, and the deploy must act on that fresh service")
-	// findOrCreateService returns a fresh object on both branches
-	okF := true
-	for _, ret := range normalReturns(foc) {
-		call, isCall := func() (*ssa.Call, bool) {
-			if e, ok := retVal(ret, 0).(*ssa.Extract); ok {
-				cl, ok := e.Tuple.(*ssa.Call)
-				return cl, ok
+	freshServiceObject(c, rule)
+	// (g) installService cannot fail once the table has been updated: its caller's undo (slot restore) assumes a
+	// failing install left the routing table alone
+	inst := c.method("Router", "installService")
+	set := c.method("ServiceMap", "Set")
+	wwl := c.method("Router", "withWriteLock")
+	var setFn *ssa.Function
+	for _, f := range withAnon(inst) {
+		for _, cs := range callsTo(f, set) {
+			setFn = f
+			for _, ret := range normalReturns(f) {
+				if _, reaches := reach(f, cs.instr, func(in ssa.Instruction) bool { return in == ssa.Instruction(ret) }, nil); !reaches {
+					continue
+				}
+				v := lastRet(ret)
+				isNil := v == nil || isNilConst(v)
+				if !isNil {
+					isNil, _ = nilKnowledge(ret, sameAs(v))
+				}
+				c.ob(rule, "installService/no-error-after-table-update", ret.Pos(), isNil, true, "once ServiceMap.Set has run the install is committed: a return after it must report success (the deploy routine's undo only puts the slot back, it does not reinstall the previous service)")
 			}
-			return nil, false
-		}()
-		if !isCall || !(isCallTo(call.Common(), ns) || isCallTo(call.Common(), cwo)) {
-			okF = false
 		}
 	}
-	c.ob(rule, "findOrCreateService/always-fresh-object", foc.Pos(), okF, true, "a deploy must never be handed the installed *Service itself")
+	if c.ob(rule, "installService/updates-table", inst.Pos(), setFn != nil, false, "") && setFn != inst {
+		for _, ret := range normalReturns(inst) {
+			okSrc := true
+			for _, src := range phiSources(lastRet(ret)) {
+				if isNilConst(src) {
+					continue
+				}
+				call, isCall := src.(*ssa.Call)
+				if !isCall || !isCallTo(call.Common(), wwl) || len(call.Call.Args) < 2 {
+					okSrc = false
+					continue
+				}
+				if mc, ok := call.Call.Args[1].(*ssa.MakeClosure); !ok || mc.Fn != ssa.Value(setFn) {
+					okSrc = false
+				}
+			}
+			c.ob(rule, "installService/fails-only-with-the-locked-section's-error", ret.Pos(), okSrc, true, "the only failure installService may report is the one raised inside the write-locked section before Set (host conflict); an error produced after the table update (e.g. from saving the snapshot) would be reported for a change that has already taken effect")
+		}
+	}
 	// createCertManager: wildcard + ACME rejected with an error, before a manager is built
 	wild := c.global(c.server, "ErrorAutomaticTLSDoesNotSupportWildcards")
 	okW := false
@@ -410,5 +438,82 @@ func (c *Ctx) probeLoopStops(rule string) {
 		okPair = gotCtx && gotCancel
 	}
 	c.ob(rule, "NewHealthCheck/ctx-and-cancel-from-one-WithCancel", nhc.Pos(), okPair, true, "Close must cancel the very context the loop selects on")
+	// every probe is sent under a context derived from the loop's: cancelling the loop aborts the probe in flight, and a
+	// tick that races with the cancellation cannot put a new probe on the wire
+	check := c.method("HealthCheck", "check")
+	nSend, bound := 0, true
+	for _, cs := range callsIn(check) {
+		n := calleeName(cs.common())
+		if !strings.HasPrefix(n, "(*net/http.Client).") && !strings.HasPrefix(n, "net/http.") && !strings.HasPrefix(n, "(*net/http.Transport).") {
+			continue
+		}
+		switch n {
+		case "(*net/http.Client).Do", "(*net/http.Transport).RoundTrip":
+			nSend++
+			req := cs.common().Args[1]
+			if e, ok := req.(*ssa.Extract); ok {
+				req = e.Tuple
+			}
+			mk, isCall := req.(*ssa.Call)
+			if !isCall || calleeName(mk.Common()) != "net/http.NewRequestWithContext" || !derivedFromLoopCtx(mk.Call.Args[0], ctxF) {
+				bound = false
+			}
+		case "net/http.NewRequestWithContext", "net/http.StatusText", "net/http.CanonicalHeaderKey":
+		case "net/http.NewRequest", "net/http.Get", "net/http.Head", "net/http.Post", "(*net/http.Client).Get", "(*net/http.Client).Head", "(*net/http.Client).Post":
+			nSend++
+			bound = false
+		}
+	}
+	c.ob(rule, "HealthCheck.check/probe-bound-to-the-loop-context", check.Pos(), nSend >= 1 && bound, true, "the probe request must be built with NewRequestWithContext on a context derived from hc.ctx (the one Close cancels); a request on its own context or on a client-side timeout keeps going - and can be followed by another - after the target was disposed")
 	_ = fmt.Sprint
+}
+
+// derivedFromLoopCtx: v is hc.ctx itself or the context returned by context.WithTimeout/WithDeadline/WithCancel/
+// WithValue/WithoutCancel-free chains on it.
+func derivedFromLoopCtx(v ssa.Value, ctxF *types.Var) bool {
+	for i := 0; i < 6; i++ {
+		if isLoadOfField(v, ctxF) {
+			return true
+		}
+		if e, ok := v.(*ssa.Extract); ok && e.Index == 0 {
+			v = e.Tuple
+		}
+		call, ok := v.(*ssa.Call)
+		if !ok {
+			return false
+		}
+		switch calleeName(call.Common()) {
+		case "context.WithTimeout", "context.WithDeadline", "context.WithCancel", "context.WithValue", "context.WithCancelCause", "context.WithTimeoutCause", "context.WithDeadlineCause":
+			v = call.Call.Args[0]
+		default:
+			return false
+		}
+	}
+	return false
+}
+
+// freshServiceObject: findOrCreateService returns a fresh object on both branches (NewService / CopyWithOptions).
+func freshServiceObject(c *Ctx, rule string) {
+	foc := c.method("Router", "findOrCreateService")
+	ns := c.fn("NewService")
+	cwo := c.method("Service", "CopyWithOptions")
+	okF := true
+	for _, ret := range normalReturns(foc) {
+		// every value that can be returned is nil or the object just made by NewService / CopyWithOptions
+		for _, src := range phiSources(retVal(ret, 0)) {
+			if isNilConst(src) {
+				continue
+			}
+			e, isE := src.(*ssa.Extract)
+			if !isE || e.Index != 0 {
+				okF = false
+				continue
+			}
+			call, isCall := e.Tuple.(*ssa.Call)
+			if !isCall || !(isCallTo(call.Common(), ns) || isCallTo(call.Common(), cwo)) {
+				okF = false
+			}
+		}
+	}
+	c.ob(rule, "findOrCreateService/always-fresh-object", foc.Pos(), okF, true, "a deploy must never be handed the installed *Service itself")
 }
